@@ -1015,7 +1015,7 @@ struct Exec
 
 	void op_setcues (Task &t, const J &op, Rec &r)
 	{	if (!t.sf) { r.skipped = true ; return ; }
-		int64_t n = op.geti ("count", 3) ; if (n < 0) n = 0 ; if (n > 100) n = 100 ;
+		int64_t n = op.geti ("count", 3) ; if (n < 0) n = 0 ; if (n > 2000) n = 2000 ;
 		size_t sz = sizeof (uint32_t) + (size_t) n * sizeof (SF_CUE_POINT) ;
 		uint8_t *raw = (uint8_t *) calloc (1, sz ? sz : 4) ;
 		SF_CUES *c = (SF_CUES *) raw ;
@@ -1063,6 +1063,13 @@ struct Exec
 			}
 			r.dh = fnv1a (raw, sz) ;
 			free (raw) ;
+		}
+		{	// the ordinary call: a plain SF_CUES (room for 100 cue points) in an exact-size heap block, whatever the file holds
+			SF_CUES *plain = (SF_CUES *) malloc (sizeof (SF_CUES)) ; memset (plain, 0xA5, sizeof (SF_CUES)) ;
+			int rc2 = sf_command (t.sf, SFC_GET_CUE, plain, sizeof (SF_CUES)) ;
+			v ["rc_plain"] = rc2 ; v ["count_plain"] = (long long) (rc2 ? plain->cue_count : 0) ;
+			if (rc2 && plain->cue_count > 100 && !t.stop) viol (t, "cues.count_exceeds_buffer", "-", "SFC_GET_CUE with sizeof (SF_CUES) reports more cue points than the buffer holds") ;
+			free (plain) ;
 		}
 		r.ret = rc ; r.err = sf_error (t.sf) ;
 		after_call (t, r) ;
@@ -1373,6 +1380,9 @@ struct Exec
 	{	for (auto &ci : crashes)
 		{	Task &t = tasks [ci.task] ;
 			if (t.stop || t.faulted) continue ;
+			// only an append-only writer leaves every crash image a prefix of the finished file
+			bool seeks = false ; if (t.ops) for (auto &o : t.ops->a) if (o.gets ("op") == "seek") seeks = true ;
+			if (seeks) continue ;
 			// decode the finished file
 			t.mode = SFM_READ ;
 			const std::vector<uint64_t> *S = nullptr ;
@@ -1593,6 +1603,7 @@ bool Exec::step (Task &t)
 	else if (kind == "bad") op_bad (t, op, r) ;
 	else if (kind == "badopen") op_badopen (t, op, r) ;
 	else r.skipped = true ;
+	r.frames = t.sf ? t.frames : -1 ;
 	res.transcript [t.id].push_back (r) ;
 	if (tasks.size () > 1) check_isolation (t) ;
 	t.pc ++ ;
@@ -1606,6 +1617,7 @@ void Exec::run ()
 	os.clock_off = cfg.geti ("clock", 0) ;
 	os.trace_io_enabled = opts.io_trace ;
 	os.record_io = opts.record_io ;
+	if (opts.preload) for (auto &kv : *opts.preload) { SimFileP f = os.file (kv.first, true) ; f->data = kv.second ; }
 	const J &io = plan.at ("io") ;
 	if (io.is_obj ())
 	{	const J &c = io.at ("chunks") ;
